@@ -82,6 +82,11 @@ class Ctx:
             known = json.loads(KNOWN.read_text())
         REPLAYS.mkdir(exist_ok=True)
         EVIDENCE.mkdir(exist_ok=True)
+        for stale in REPLAYS.glob(f"{self.prop}-*.json"):   # replays describe this run only
+            try:
+                stale.unlink()
+            except OSError:
+                pass
         exit_code = 0
         lines = []
         unknown = []
